@@ -197,6 +197,8 @@ pub struct Knobs {
     pub freq_profile: bool,
     pub final_reads: bool,
     pub ttls: Vec<i64>,
+    /// percent: after an operation that is not a read, read all of the caller's keys (the observation of C03)
+    pub observe_pct: u32,
 }
 
 impl Default for Knobs {
@@ -207,7 +209,7 @@ impl Default for Knobs {
             mixw: [28, 22, 12, 26, 6, 3, 3], ttl_pct: 40, weight_pct: 60, pou_ttl_pct: 50,
             await_pcts: vec![0, 30, 70, 100], advance_pcts: vec![0, 3, 8, 15], max_advances: vec![1, 2, 4, 9],
             sweeper_pcts: vec![5, 20, 60], stall_sweeper_pct: 15, stall_consumer_pct: 20, sticky: vec![0, 0, 50, 85],
-            shutdown_pct: 0, heavy_pct: 5, freq_profile: false, final_reads: false, ttls: vec![1, 2, 3, 5, 8, 13],
+            shutdown_pct: 0, heavy_pct: 5, freq_profile: false, final_reads: false, ttls: vec![1, 2, 3, 5, 8, 13], observe_pct: 0,
         }
     }
 }
@@ -299,6 +301,13 @@ impl Gen {
                     wait.id = base + program.len() as i64 + 1;
                     program.push(wait);
                 }
+                if kind != 3 && kind != 4 && self.rng.gen_range(0..100) < kn.observe_pct {
+                    let mut o = op("mget");
+                    o.ks = keys.clone();
+                    o.var = self.pick(&["multi_get", "iter", "map_iter"]).to_string();
+                    o.id = base + program.len() as i64 + 1;
+                    program.push(o);
+                }
             }
             if kn.final_reads {
                 // await everything still pending, then read every key and the statistics
@@ -362,9 +371,9 @@ pub fn knobs(profile: &str) -> Knobs {
             ttl_pct: 15, weight_pct: 85, await_pcts: vec![30, 70, 100], advance_pcts: vec![0, 3], freq_profile: true, heavy_pct: 8, ..d },
         // sequential use of every key by one caller, no memory pressure (C03)
         "seq" => Knobs {
-            callers: (1, 3), ops: (20, 45), keys: (2, 4), shared_keys: false, max_weights: vec![400, 1000], mixw: [28, 26, 10, 34, 2, 0, 0],
+            callers: (1, 3), ops: (25, 55), keys: (2, 3), shared_keys: false, max_weights: vec![400, 1000], mixw: [20, 22, 6, 50, 2, 0, 0],
             ttl_pct: 50, await_pcts: vec![100], advance_pcts: vec![5, 15, 25], max_advances: vec![1, 2, 3], sweeper_pcts: vec![40, 100],
-            heavy_pct: 0, ttls: vec![2, 3, 5, 8], ..d },
+            heavy_pct: 0, ttls: vec![2, 3, 5, 8], observe_pct: 80, ..d },
         // unawaited bursts on shared keys through tiny queues (C05, C11, C04)
         "burst" => Knobs {
             callers: (1, 3), ops: (12, 30), keys: (1, 3), qsizes: vec![1, 1, 2, 3], mixw: [42, 14, 24, 18, 2, 0, 0], ttl_pct: 15,
@@ -426,6 +435,99 @@ pub fn generate(profile: &str, seed: u64, count: usize) -> Vec<Scenario> {
                     *program = all;
                 }
                 // only caller c0 of a shared-key scenario may put: drop duplicate puts of other callers (they would be rejected, which is fine)
+                sc
+            }
+            "fill" => {
+                // a cache filled with light keys, then heavy puts that need many victims (more than one sample)
+                let mut kn = knobs("pressure");
+                kn.callers = (1, 1); kn.ops = (0, 0);
+                let mut sc = gen.history(&name, &kn);
+                sc.cfg.max_weight = gen.pick(&[8, 10, 12, 15, 20, 30]);
+                sc.freq = Vec::new();
+                let light = gen.pick(&[1, 1, 2]);
+                let mut program: Vec<Op> = Vec::new();
+                let count = sc.cfg.max_weight / light;
+                for key in 0..count {
+                    let mut put = op("put"); put.k = key; put.v = gen.value(); put.w = light;
+                    program.push(put);
+                    if gen.rng.gen_bool(0.5) { let mut wait = op("await"); wait.r#ref = -1; program.push(wait); }
+                }
+                for round in 0..gen.rng.gen_range(2..6) {
+                    if gen.rng.gen_bool(0.4) { let key = gen.rng.gen_range(0..count); program.push(gen.get(key)); }
+                    let mut put = op("put"); put.k = 100 + round; put.v = gen.value();
+                    put.w = gen.rng.gen_range((5 * light + 1).min(sc.cfg.max_weight)..=sc.cfg.max_weight);
+                    if gen.rng.gen_bool(0.2) { put.ttl = 3; }
+                    program.push(put);
+                    let mut wait = op("await"); wait.r#ref = -1; program.push(wait);
+                    program.push(op("weight"));
+                }
+                for (index, o) in program.iter_mut().enumerate() { o.id = 1000 + index as i64 + 1; }
+                for index in 0..program.len() { if program[index].op == "await" && program[index].r#ref == -1 { program[index].r#ref = program[index - 1].id; } }
+                sc.programs.clear();
+                sc.programs.insert("c0".to_string(), program);
+                sc
+            }
+            "shutrace" => {
+                // shutdown() racing a few unawaited writes of other callers (C13): many short runs
+                let mut kn = knobs("shutdown");
+                kn.callers = (3, 4); kn.ops = (0, 0);
+                let mut sc = gen.history(&name, &kn);
+                sc.cfg.qsize = gen.pick(&[1, 2, 2, 4]);
+                let roles: Vec<String> = sc.programs.keys().cloned().collect();
+                for (index, role) in roles.iter().enumerate() {
+                    let base = 1000 * (index as i64 + 1);
+                    let mut program: Vec<Op> = Vec::new();
+                    if index == 0 {
+                        if gen.rng.gen_bool(0.5) { program.push(gen.put(&sc.cfg, 0)); }
+                        program.push(op("shutdown"));
+                        program.push(gen.put(&sc.cfg, 1));
+                        program.push(gen.get(0));
+                    } else {
+                        for _ in 0..gen.rng.gen_range(1..=3) {
+                            let key = gen.rng.gen_range(0..3);
+                            let next = match gen.rng.gen_range(0..4) { 0 => { let mut o = op("del"); o.k = key; o } 1 => gen.pou(&sc.cfg, key), _ => gen.put(&sc.cfg, key) };
+                            program.push(next);
+                        }
+                        if index == 1 && gen.rng.gen_bool(0.3) { program.push(op("shutdown")); }
+                    }
+                    for (position, o) in program.iter_mut().enumerate() { o.id = base + position as i64 + 1; }
+                    sc.programs.insert(role.clone(), program);
+                }
+                sc
+            }
+            "boundary" => {
+                // arguments and configurations at and around type / arithmetic boundaries (C17)
+                let mut kn = knobs("mix");
+                kn.callers = (1, 2); kn.ops = (10, 30); kn.keys = (2, 4);
+                kn.final_reads = true;
+                let mut sc = gen.history(&name, &kn);
+                sc.cfg.max_weight = gen.pick(&[1, 24, 25, 26, 49, 100, 1 << 20]);
+                sc.cfg.counters = gen.pick(&[1, 1, 2, 3, 4]);
+                sc.cfg.qsize = gen.pick(&[1, 1, 2]);
+                sc.cfg.pool = gen.pick(&[1, 1, 2]);
+                sc.cfg.buffer = gen.pick(&[1, 1, 2]);
+                sc.cfg.shards = 2;
+                sc.cfg.default_weight_fn = gen.rng.gen_bool(0.3);
+                let big = crate::driver::BIG;
+                let max = sc.cfg.max_weight;
+                for (_, program) in sc.programs.iter_mut() {
+                    for o in program.iter_mut() {
+                        if o.op == "put" || o.op == "pou" {
+                            if o.w >= 0 || gen.rng.gen_bool(0.3) {
+                                o.w = gen.pick(&[1, 1, 2, 23, 24, 25, max, max, max + 1, (max - 1).max(1), big + 1, big + 2, big + 25]);
+                            }
+                            if o.ttl >= 0 && !o.rm {
+                                match gen.rng.gen_range(0..6) {
+                                    0 => { o.ttl = 0; o.ttl_ns = 0; }
+                                    1 => { o.ttl = 0; o.ttl_ns = 1; }
+                                    2 => { o.ttl = big; }           // Duration::MAX
+                                    3 => { o.ttl = 1_000_000; }
+                                    _ => {}
+                                }
+                            }
+                        }
+                    }
+                }
                 sc
             }
             other => gen.history(&name, &knobs(other)),
